@@ -210,23 +210,32 @@ theorem roundHalfAway_eq (x : F) (k : ℕ) (h : |x.toRat - k| < 1 / 2) : roundHa
     have n2 : k * (2 * d) < 2 * x.n + d := by exact_mod_cast b2
     exact Nat.div_eq_of_lt_le (le_of_lt n2) n1
 
-/-- **C05, amount**: a request of `k` pieces written as the double nearest to `k/B` is converted back
-    to exactly `k` pieces by `int(math.Round(req * float64(B)))`, for every `1 ≤ k ≤ 2^50`, `B ≥ 1`
-    (exponent range of binary64 not modelled: `k/B ∈ [2^-1000, 2^1000]`). -/
-theorem piecesRound_exact (k B : ℕ) (hk : 1 ≤ k) (hk2 : k ≤ 2 ^ 50) (hB : 1 ≤ B) :
-    piecesRound k B B = k := by
+/-- **C05, amount** (general form): a decimal request `a/b` that equals `k/B` exactly (`a·B = k·b`), written
+    as the double nearest to `a/b`, is converted back to exactly `k` pieces by
+    `int(math.Round(req * float64(B)))`, for every `1 ≤ k ≤ 2^50` (exponent range of binary64 not
+    modelled: values in `[2^-1000, 2^1000]`). -/
+theorem piecesRound_exact' (a b B k : ℕ) (hb : 0 < b) (hk : 1 ≤ k) (hk2 : k ≤ 2 ^ 50) (hB : 1 ≤ B)
+    (hab : a * B = k * b) : piecesRound a b B = k := by
+  have ha : 0 < a := by
+    rcases Nat.eq_zero_or_pos a with h0 | h0
+    · rw [h0] at hab; simp at hab
+      rcases hab with h | h <;> omega
+    · exact h0
   unfold piecesRound
   apply roundHalfAway_eq
-  have h1 := roundRat_spec k B hk hB
-  have p1 := roundRat_pos k B hk hB
-  have h2 := mulNat_spec (roundRat k B) B (pos_n_of_toRat_pos _ p1) hB
-  set r1 := (roundRat k B).toRat
-  set r2 := (mulNat (roundRat k B) B).toRat
+  have h1 := roundRat_spec a b ha hb
+  have p1 := roundRat_pos a b ha hb
+  have h2 := mulNat_spec (roundRat a b) B (pos_n_of_toRat_pos _ p1) hB
+  set r1 := (roundRat a b).toRat
+  set r2 := (mulNat (roundRat a b) B).toRat
   have hB' : (0 : ℚ) < B := by exact_mod_cast hB
+  have hb' : (0 : ℚ) < b := by exact_mod_cast hb
   have hk' : (1 : ℚ) ≤ k := by exact_mod_cast hk
   have hk2' : (k : ℚ) ≤ 2 ^ 50 := by exact_mod_cast hk2
-  have hq : (k : ℚ) / B * B = k := div_mul_cancel₀ _ (ne_of_gt hB')
-  set q := (k : ℚ) / B
+  have hab' : (a : ℚ) * B = k * b := by exact_mod_cast hab
+  have hq : (a : ℚ) / b * B = k := by
+    rw [div_mul_eq_mul_div, hab', mul_div_assoc, div_self (ne_of_gt hb'), mul_one]
+  set q := (a : ℚ) / b
   have pw : (0 : ℚ) ≤ 2 ^ 53 := by positivity
   have h1b : (r1 - q) * 2 ^ 53 ≤ q := le_trans (mul_le_mul_of_nonneg_right (le_abs_self _) pw) h1
   have h1a : -q ≤ (r1 - q) * 2 ^ 53 := by
@@ -234,12 +243,15 @@ theorem piecesRound_exact (k B : ℕ) (hk : 1 ≤ k) (hk2 : k ≤ 2 ^ 50) (hB : 
   have h2b : (r2 - r1 * B) * 2 ^ 53 ≤ r1 * B := le_trans (mul_le_mul_of_nonneg_right (le_abs_self _) pw) h2
   have h2a : -(r1 * B) ≤ (r2 - r1 * B) * 2 ^ 53 := by
     have := mul_le_mul_of_nonneg_right (neg_abs_le (r2 - r1 * B)) pw; linarith
-  -- |r1 - q|·2^53 ≤ q   ⇒   |r1·B - k|·2^53 ≤ k
   have a1 : (r1 * B - k) * 2 ^ 53 ≤ k := by
     have := mul_le_mul_of_nonneg_right h1b (le_of_lt hB'); nlinarith
   have a2 : -(k : ℚ) ≤ (r1 * B - k) * 2 ^ 53 := by
     have := mul_le_mul_of_nonneg_right h1a (le_of_lt hB'); nlinarith
   rw [abs_lt]
   constructor <;> nlinarith
+
+/-- the request written as `k/B` itself -/
+theorem piecesRound_exact (k B : ℕ) (hk : 1 ≤ k) (hk2 : k ≤ 2 ^ 50) (hB : 1 ≤ B) :
+    piecesRound k B B = k := piecesRound_exact' k B B k hB hk hk2 hB rfl
 
 end Eru.Float64
